@@ -19,11 +19,11 @@ import (
 )
 
 type propSpec struct {
-	Pkgs     []string `json:"pkgs"`      // package dirs relative to the repo root
-	InitPkgs []string `json:"init_pkgs"` // extra packages whose init runs
-	Bounds   map[string]string `json:"bounds"`
-	Assumptions []string `json:"assumptions"`
-	Outside  []string `json:"outside"`
+	Pkgs        []string          `json:"pkgs"`      // package dirs relative to the repo root
+	InitPkgs    []string          `json:"init_pkgs"` // extra packages whose init runs
+	Bounds      map[string]string `json:"bounds"`
+	Assumptions []string          `json:"assumptions"`
+	Outside     []string          `json:"outside"`
 }
 
 var (
@@ -168,26 +168,26 @@ func overlayFor(repo, verif string, dirs []string) (map[string][]byte, map[strin
 }
 
 type unitEvidence struct {
-	Unit       string                 `json:"unit"`
-	Paths      int                    `json:"paths"`
-	Done       int                    `json:"paths_completed"`
-	Pruned     int                    `json:"paths_pruned_by_assumption"`
-	Panicked   int                    `json:"paths_ending_in_go_panic"`
-	Ends       map[string]int         `json:"path_ends"`
-	Asserts    int                    `json:"assertions_discharged_by_solver"`
-	Folded     int                    `json:"assertions_folded_by_simplifier"`
-	Queries    int                    `json:"solver_queries"`
-	Sat        int                    `json:"sat"`
-	Unsat      int                    `json:"unsat"`
-	Unknown    int                    `json:"unknown_or_error"`
-	SolverS    float64                `json:"solver_s"`
-	WallS      float64                `json:"wall_s"`
-	Steps      int64                  `json:"ssa_instructions_executed"`
-	Decisions  int64                  `json:"decisions"`
-	Covers     []string               `json:"reachability_witnesses"`
-	Violations int                    `json:"violations"`
-	Incomplete []string               `json:"incomplete,omitempty"`
-	PanicMsgs  map[string]int         `json:"panic_messages,omitempty"`
+	Unit       string         `json:"unit"`
+	Paths      int            `json:"paths"`
+	Done       int            `json:"paths_completed"`
+	Pruned     int            `json:"paths_pruned_by_assumption"`
+	Panicked   int            `json:"paths_ending_in_go_panic"`
+	Ends       map[string]int `json:"path_ends"`
+	Asserts    int            `json:"assertions_discharged_by_solver"`
+	Folded     int            `json:"assertions_folded_by_simplifier"`
+	Queries    int            `json:"solver_queries"`
+	Sat        int            `json:"sat"`
+	Unsat      int            `json:"unsat"`
+	Unknown    int            `json:"unknown_or_error"`
+	SolverS    float64        `json:"solver_s"`
+	WallS      float64        `json:"wall_s"`
+	Steps      int64          `json:"ssa_instructions_executed"`
+	Decisions  int64          `json:"decisions"`
+	Covers     []string       `json:"reachability_witnesses"`
+	Violations int            `json:"violations"`
+	Incomplete []string       `json:"incomplete,omitempty"`
+	PanicMsgs  map[string]int `json:"panic_messages,omitempty"`
 }
 
 func run() int {
@@ -256,6 +256,7 @@ func run() int {
 	totalQ, totalSolver := 0, 0.0
 	nviol, nknown, ninconcl := 0, 0, 0
 	replays := 0
+	traceValidated := 0
 	var vioLines, knownLines, inconclusive []string
 	exit := 0
 	names := sym.SortedKeys(units)
@@ -310,6 +311,30 @@ func run() int {
 		if len(ur.PanicMsgs) > 0 && *flagDebug {
 			fmt.Printf("  panics: %v\n", ur.PanicMsgs)
 		}
+		// translation validation of the vfs event trace (C08/C09): the reachability witness of a
+		// clean unit is replayed natively under strace and the same obligations must hold on the
+		// real system-call trace
+		if (*flagProp == "C08" || *flagProp == "C09") && len(ur.Violations) == 0 && !*flagNoReplay {
+			if w, ok := ur.Covers["end"]; ok {
+				rp := filepath.Join(*flagVerif, "replays", fmt.Sprintf("%s-%s-witness.json", *flagProp, strings.TrimPrefix(name, "VP_"+*flagProp+"_")))
+				sym.WriteJSON(rp, map[string]interface{}{"property": *flagProp, "unit": name, "assert": "(witness)", "tier": tier, "nondet": w})
+				tr, tout := replayTrace(*flagRepo, *flagVerif, pkgDirOfUnit(fn.Pkg.Pkg.Path()), hfiles, name, "(witness: all obligations must hold on the real trace)", rp)
+				replays++
+				switch tr {
+				case "no":
+					if strings.Contains(tout, "violated on it: []") {
+						fmt.Printf("  TRACE-VALIDATED %s: %s\n", name, tout)
+						traceValidated++
+					} else {
+						inconclusive = append(inconclusive, name+": the real system-call trace violates an obligation the vfs trace satisfies: "+tout)
+						fmt.Printf("  TRACE-MISMATCH %s: %s\n", name, tout)
+					}
+				case "unavailable":
+				default:
+					inconclusive = append(inconclusive, name+": trace validation failed to run: "+tr+" "+tail(tout, 5))
+				}
+			}
+		}
 		// violations: replay natively
 		for i, v := range ur.Violations {
 			rp := filepath.Join(*flagVerif, "replays", fmt.Sprintf("%s-%s-%s-%d.json", *flagProp, strings.TrimPrefix(name, "VP_"+*flagProp+"_"), sanitizeFile(v.AssertID), i))
@@ -336,6 +361,17 @@ func run() int {
 				// to the race reproduce; the interleaving itself is the counterexample
 				reproduced = "path-confirmed"
 			}
+			if reproduced == "no" && traceCheckable(v.AssertID) {
+				// trace-level obligation: run the real operation under strace and decide the same
+				// obligation on the real system-call trace
+				tr, tout := replayTrace(*flagRepo, *flagVerif, pkgDirOfUnit(fn.Pkg.Pkg.Path()), hfiles, name, v.AssertID, rp)
+				if tr == "yes" {
+					reproduced = "trace-confirmed"
+				} else if tr == "no" {
+					reproduced = "trace-refuted"
+					out = tout
+				}
+			}
 			if reproduced == "no" && isModelLevel(v.AssertID) {
 				// engine-side observation (fs event trace, write set, randomness provenance, crash
 				// schedule): the native run confirmed that the inputs drive the real build down
@@ -343,7 +379,7 @@ func run() int {
 				reproduced = "path-confirmed"
 			}
 			switch reproduced {
-			case "yes", "skipped", "path-confirmed":
+			case "yes", "skipped", "path-confirmed", "trace-confirmed":
 				if line, ok := kf[sig]; ok {
 					nknown++
 					knownLines = append(knownLines, fmt.Sprintf("KNOWN-FINDING: property=%s %s", *flagProp, line))
@@ -421,6 +457,7 @@ func run() int {
 			"bounds":                        spec.Bounds,
 			"outside_claim":                 spec.Outside,
 			"known_findings":                dedup(knownLines),
+			"witness_traces_validated_with_strace": traceValidated,
 			"inconclusive":                  inconclusive,
 			"explanation":                   "bounded symbolic execution of the real go/ssa of /repo (regenerated on this run) with SMT discharge of every assertion; see DESIGN.md",
 		},
@@ -437,6 +474,79 @@ func run() int {
 }
 
 var scheduleDependent = map[string]bool{"C05": true, "C10": true, "C11": true, "C12": true, "C19": true}
+
+// traceCheckable: obligations that can be decided on the real strace log of the operation.
+func traceCheckable(id string) bool {
+	return strings.HasPrefix(id, "crash") || strings.HasPrefix(id, "durable:") || strings.HasPrefix(id, "model: effects-confined")
+}
+
+// replayTrace builds the native test binary, runs the unit under strace and analyses the trace.
+func replayTrace(repo, verif, pkgDir string, hfiles map[string][]string, unit, assertID, replayPath string) (string, string) {
+	if _, err := exec.LookPath("strace"); err != nil {
+		return "unavailable", ""
+	}
+	tmp, err := os.MkdirTemp("", "vptrace")
+	if err != nil {
+		return "error", err.Error()
+	}
+	defer os.RemoveAll(tmp)
+	ovFile, err := nativeOverlay(repo, verif, pkgDir, hfiles, tmp)
+	if err != nil {
+		return "error", err.Error()
+	}
+	bin := filepath.Join(tmp, "replay.test")
+	cmd := exec.Command("go", "test", "-c", "-vet=off", "-overlay", ovFile, "-o", bin, "./"+pkgDir)
+	cmd.Dir = repo
+	cmd.Env = append(os.Environ(), "GOFLAGS=-mod=mod", "GOPROXY=off", "GOSUMDB=off", "GOTOOLCHAIN=local")
+	if out, err := cmd.CombinedOutput(); err != nil {
+		return "error", string(out)
+	}
+	logf := filepath.Join(tmp, "strace.log")
+	run := exec.Command("timeout", "120", "strace", "-f", "-y", "-s", "16", "-o", logf,
+		"-e", "trace=openat,open,creat,write,pwrite64,copy_file_range,sendfile,fsync,fdatasync,rename,renameat,renameat2,unlink,unlinkat,rmdir,mkdir,mkdirat,ftruncate,newfstatat",
+		bin, "-test.run", "TestVPReplay$", "-test.v")
+	run.Dir = filepath.Join(repo, pkgDir)
+	run.Env = append(os.Environ(), "VP_REPLAY="+replayPath, "VP_UNIT="+unit)
+	ob, _ := run.CombinedOutput()
+	outS := string(ob)
+	var initPaths []string
+	base, user, op, confine := "", "", "", false
+	for _, l := range strings.Split(outS, "\n") {
+		switch {
+		case strings.HasPrefix(l, "VPINIT "):
+			initPaths = append(initPaths, strings.TrimPrefix(l, "VPINIT "))
+		case strings.HasPrefix(l, "VPCRASH "):
+			f := strings.Fields(l)
+			if len(f) == 4 {
+				base, user, op = f[1], f[2], f[3]
+			}
+		case strings.HasPrefix(l, "VPCONFINE "):
+			base = strings.TrimPrefix(l, "VPCONFINE ")
+			confine = true
+		}
+	}
+	if base == "" {
+		return "error", "native run did not reach the trace-level check:\n" + tail(outS, 20)
+	}
+	durable := strings.HasSuffix(op, "+durable")
+	op = strings.TrimSuffix(op, "+durable")
+	if confine && !strings.HasPrefix(assertID, "model: effects-confined") {
+		confine = false
+	}
+	if strings.HasPrefix(assertID, "model: effects-confined") {
+		op = ""
+	}
+	res, err := sym.TraceCheck(*flagSolver, logf, initPaths, base, user, op, durable, confine || strings.HasPrefix(assertID, "model: effects-confined"))
+	if err != nil {
+		return "error", err.Error()
+	}
+	for _, f := range res.Failed {
+		if f == assertID {
+			return "yes", ""
+		}
+	}
+	return "no", fmt.Sprintf("real trace (%d events) satisfies %q; violated on it: %v %v", res.Events, assertID, res.Failed, res.Problems)
+}
 
 // isModelLevel: assertion ids whose oracle is an engine-side observation (DESIGN §4).
 func isModelLevel(id string) bool {
@@ -563,10 +673,35 @@ func replayNative(repo, verif, pkgDir string, hfiles map[string][]string, unit, 
 		return "error", err.Error()
 	}
 	defer os.RemoveAll(tmp)
+	ovFile, err := nativeOverlay(repo, verif, pkgDir, hfiles, tmp)
+	if err != nil {
+		return "error", err.Error()
+	}
+	cmd := exec.Command("timeout", "300", "go", "test", "-vet=off", "-count=1", "-overlay", ovFile, "-run", "TestVPReplay$", "-v", "./"+pkgDir)
+	cmd.Dir = repo
+	cmd.Env = append(os.Environ(), "GOFLAGS=-mod=mod", "GOPROXY=off", "GOSUMDB=off", "GOTOOLCHAIN=local", "VP_REPLAY="+replayPath, "VP_UNIT="+unit)
+	out, _ := cmd.CombinedOutput()
+	s := string(out)
+	if assertID == "no-uncaught-panic" && (strings.Contains(s, "VPPANIC") || strings.Contains(s, "\npanic: ") || strings.HasPrefix(s, "panic: ")) {
+		return "yes", s
+	}
+	switch {
+	case strings.Contains(s, "VPFAIL "+assertID+"\n") || strings.Contains(s, "VPFAIL "+assertID+" "):
+		return "yes", s
+	case strings.Contains(s, "VPFAIL "):
+		return "other-assert", s
+	case strings.Contains(s, "VPDONE"):
+		return "no", s
+	}
+	return "error", s
+}
+
+// nativeOverlay writes the go build overlay (native vp runtime, harness files, replay test) into tmp.
+func nativeOverlay(repo, verif, pkgDir string, hfiles map[string][]string, tmp string) (string, error) {
 	pn := pkgNameOf(repo, pkgDir)
 	nat, err := os.ReadFile(filepath.Join(verif, "harness", "native", "vp_native.go.txt"))
 	if err != nil {
-		return "error", err.Error()
+		return "", err
 	}
 	natFile := filepath.Join(tmp, "vp_native.go")
 	os.WriteFile(natFile, []byte(strings.Replace(string(nat), "package PKG", "package "+pn, 1)), 0644)
@@ -593,21 +728,5 @@ func replayNative(repo, verif, pkgDir string, hfiles map[string][]string, unit, 
 	ovb, _ := json.Marshal(map[string]interface{}{"Replace": repl})
 	ovFile := filepath.Join(tmp, "overlay.json")
 	os.WriteFile(ovFile, ovb, 0644)
-	cmd := exec.Command("timeout", "300", "go", "test", "-vet=off", "-count=1", "-overlay", ovFile, "-run", "TestVPReplay$", "-v", "./"+pkgDir)
-	cmd.Dir = repo
-	cmd.Env = append(os.Environ(), "GOFLAGS=-mod=mod", "GOPROXY=off", "GOSUMDB=off", "GOTOOLCHAIN=local", "VP_REPLAY="+replayPath, "VP_UNIT="+unit)
-	out, _ := cmd.CombinedOutput()
-	s := string(out)
-	if assertID == "no-uncaught-panic" && (strings.Contains(s, "VPPANIC") || strings.Contains(s, "\npanic: ") || strings.HasPrefix(s, "panic: ")) {
-		return "yes", s
-	}
-	switch {
-	case strings.Contains(s, "VPFAIL "+assertID+"\n") || strings.Contains(s, "VPFAIL "+assertID+" "):
-		return "yes", s
-	case strings.Contains(s, "VPFAIL "):
-		return "other-assert", s
-	case strings.Contains(s, "VPDONE"):
-		return "no", s
-	}
-	return "error", s
+	return ovFile, nil
 }
